@@ -150,8 +150,9 @@ pub fn check(scn: &Scenario, stats: &mut Stats) -> Vec<Violation> {
                 let ok = match &ins.flow {
                     Flow::Return => nd.is_return || nd.is_ureturn || nd.rewritten_return,
                     Flow::Branch { .. } => nd.kind == "Branch",
-                    Flow::Call(l) => nd.calls_to.as_deref() == Some(l.as_str()),
-                    Flow::Jump(l) => nd.jumps_to.as_deref() == Some(l.as_str()),
+                    // by the kind of node only: whether the analyzer *treats* it as the call or jump
+                    // it is, is what the clauses below are about
+                    Flow::Call(_) | Flow::Jump(_) => nd.kind == "JumpLink" || nd.kind == "Branch",
                     Flow::Ecall => nd.is_ecall,
                     Flow::Plain => !(nd.is_return || nd.is_ecall || nd.kind == "Branch"),
                 };
